@@ -85,11 +85,19 @@ def agnostic(domains=2, window=2, dlr=0.125, copt='sgd', sopt='sgd', lr_c=0.125,
   return alg, alg.init(algos.jparams())
 
 
-def hyp_cluster(clusters=2, copt='sgd', sopt='mom', lr_c=0.125, lr_s=0.5, loss='plain', hp=(2, 1, None, 0), mhp=(2, 1)):
+def half_l2(lam):
+  """regularizer(params) = lam/2 * |params|^2 (gradient lam * params)."""
+  import jax
+  import jax.numpy as jnp
+  return lambda p: 0.5 * lam * sum(jnp.sum(l * l) for l in jax.tree_util.tree_leaves(p))
+
+
+def hyp_cluster(clusters=2, copt='sgd', sopt='mom', lr_c=0.125, lr_s=0.5, loss='plain', hp=(2, 1, None, 0), mhp=(2, 1),
+                reg=None):
   from fedjax.algorithms import hyp_cluster as m
   c, _ = algos.make_opt(copt, lr_c)
   s, _ = algos.make_opt(sopt, lr_s)
-  alg = m.hyp_cluster(algos.make_loss(loss), c, s, _php(*mhp), _hp(*hp))
+  alg = m.hyp_cluster(algos.make_loss(loss), c, s, _php(*mhp), _hp(*hp), regularizer=half_l2(reg) if reg else None)
   inits = [algos.jparams(p) for p in CLUSTER_INITS[:clusters]]
   return alg, alg.init(inits)
 
